@@ -140,6 +140,8 @@ func (h *NFSProcedureHandler) handleCreate(body io.Reader, reply *RPCReply, auth
 			if !existing.Mode().IsRegular() {
 				return existsReply()
 			}
+			// (also when the second step fails after the first has been applied)
+			defer h.server.handler.attrCache.Invalidate(targetPath)
 			if sattr.SetSize {
 				if err := h.server.handler.fs.Truncate(targetPath, int64(sattr.Size)); err != nil {
 					return nfsErrorWithWcc(reply, mapError(err)), nil
